@@ -528,6 +528,45 @@ Proof.
   - exact D.
 Qed.
 
+Lemma queued_handled : forall s1 held k se1 n,
+  holder s1 = Some k -> ~ In k held -> phase s1 k = Active se1 -> In (n, false) (se_queue se1) ->
+  node_down (quiesce held false s1) n = true.
+Proof.
+  intros s1 held k se1 n H1 Nk P1 Hq.
+  assert (T : take_lock s1 = s1) by (unfold take_lock; rewrite H1; reflexivity).
+  unfold quiesce. rewrite T. cbv zeta. rewrite H1.
+  destruct (memn k held) eqn:M; [apply memn_In in M; contradiction|].
+  rewrite settle_failing_false.
+  destruct (settle_discharges (settle_bound s1 k + 8) s1 k se1 n P1) as [D _].
+  - pose proof (msr_bound s1 k se1 P1). lia.
+  - left. right. left. exact Hq.
+  - exact D.
+Qed.
+
+(* ... also when the heartbeat is back before the handler runs *)
+Lemma lapsehb_handled : forall s held k n,
+  qpre s held -> holder s = Some k -> ~ In k held ->
+  (exists se, phase s k = Active se /\ se_watch se = true) ->
+  memn n (alive s) = true ->
+  node_down (quiesce held false (run s [ELapse n; EHeartbeat n])) n = true.
+Proof.
+  intros s held k n Q H Nk [se [P W]] A.
+  set (sa := step s (ELapse n)).
+  assert (Pa : phase sa k = Active (mkSe true (se_listed se) (se_init se) (se_queue se ++ [(n, false)]) (se_tasks se))).
+  { unfold sa. simpl. rewrite A. rewrite phase_enqueue_any, P. simpl. rewrite W. reflexivity. }
+  assert (Ha : holder sa = Some k) by (unfold sa; simpl; rewrite A; exact H).
+  change (run s [ELapse n; EHeartbeat n]) with (step sa (EHeartbeat n)).
+  assert (Nn : memn n (nodes sa) = true).
+  { unfold sa. simpl. rewrite A. simpl. apply (inv_alive _ (qp_inv _ _ Q)). exact A. }
+  assert (Aa : memn n (alive sa) = false) by (unfold sa; simpl; rewrite A; simpl; apply memn_remn_same).
+  assert (Pb : exists se1, phase (step sa (EHeartbeat n)) k = Active se1 /\ In (n, false) (se_queue se1)).
+  { simpl. rewrite Nn, Aa. simpl. rewrite phase_enqueue_any, Pa. simpl.
+    eexists. split; [reflexivity|]. simpl. apply in_or_app. left. apply in_or_app. right. left. reflexivity. }
+  destruct Pb as [se1 [Pb Hq]].
+  apply (queued_handled _ held k se1 n); auto.
+  simpl. rewrite Nn, Aa. simpl. exact Ha.
+Qed.
+
 (* a fresh or not-yet-listed session examines every node without status *)
 Lemma init_handles : forall s held k se n,
   holder s = Some k -> ~ In k held -> phase s k = Active se -> se_listed se = false ->
@@ -568,6 +607,16 @@ Proof.
   intros s n. simpl. destruct (memn n (alive s)) eqn:M; simpl; auto.
   rewrite remn_notin by exact M. auto.
 Qed.
+Lemma run_lapsehb : forall s n,
+  let s1 := run s [ELapse n; EHeartbeat n] in
+  nodes s1 = nodes s /\
+  alive s1 = (if memn n (nodes s) then n :: remn n (alive s) else remn n (alive s)) /\ wls s1 = wls s.
+Proof.
+  intros s n. destruct (run_lapse s n) as [A [B C]].
+  change (run s [ELapse n; EHeartbeat n]) with (run (run s [ELapse n]) [EHeartbeat n]).
+  destruct (run_heartbeat (run s [ELapse n]) n) as [A' [B' C']].
+  cbv zeta. rewrite A', B', C'. rewrite A, B, C. rewrite memn_remn_same. simpl. rewrite andb_true_r. auto.
+Qed.
 Lemma run_create : forall s n,
   let s1 := run s [ECreate n] in
   nodes s1 = nodes s /\ alive s1 = alive s /\
@@ -587,7 +636,7 @@ Definition slot_for (s : st) (held : list nat) (a : action) : slot * st * list n
 
 Lemma gen_step_env : forall o s held a,
   rel o s held ->
-  match a with AAddNode _ | AHeartbeat _ | ALapse _ | ALapseFail _ | ACreate _ | AReport _ _ _ => True | _ => False end ->
+  match a with AAddNode _ | AHeartbeat _ | ALapse _ | ALapseFail _ | ALapseHb _ | ACreate _ | AReport _ _ _ => True | _ => False end ->
   let '(sl, s2, held') := slot_for s held a in
   rel (ok_step o sl) s2 held'.
 Proof.
@@ -617,6 +666,12 @@ Proof.
     apply rel_env_gen with (o := o); auto; try (repeat constructor); cbn -[run quiesce].
     + rewrite A. exact Rn.
     + rewrite B, Ra. reflexivity.
+    + rewrite C. exact Rw.
+  - (* ALapseHb *)
+    destruct (run_lapsehb s n) as [A [B C]].
+    apply rel_env_gen with (o := o); auto; try (repeat constructor); cbn -[run quiesce].
+    + rewrite A. exact Rn.
+    + rewrite B, Rn, Ra. reflexivity.
     + rewrite C. exact Rw.
   - (* ACreate *)
     destruct (run_create s n) as [A [B C]].
@@ -803,18 +858,30 @@ Proof.
     split; [|exact G]. unfold ok_check, ok_takes. cbn. destruct (o_active o); reflexivity.
   - (* ALapse *) pose proof (gen_step_env o s held (ALapse n) R I) as G. unfold slot_for in *.
     split; [|exact G]. cbn [held_after act_events] in *.
-    unfold ok_check. cbn [act seen]. 
-    destruct (lock_running (o_held (ok_upd o _)) (o_active o) && memn n (o_alive o)) eqn:C; [|reflexivity].
+    unfold ok_check. cbn [act seen lapse_of].
+    match goal with |- context [if ?c then _ else _] => destruct c eqn:C end; [|reflexivity].
     apply andb_true_iff in C. destruct C as [C1 C2]. cbn in C1. unfold lock_running in C1.
     rewrite Rac in C1. destruct (holder s) as [k|] eqn:Ho; [|discriminate].
     apply negb_true_iff in C1. rewrite Rh in C1. rewrite Ra in C2.
     assert (Nk : ~ In k held) by (intro X; apply memn_In in X; congruence).
-    pose proof (r_wnode _ _ _ G) as W. cbn in W. cbn [o_wnode ok_upd act]. 
-    change (o_wnode (ok_upd o (mkSlot (ALapse n) (map w_st (wls (quiesce held false (run s [ELapse n]))))))) with (o_wnode o).
+    pose proof (r_wnode _ _ _ G) as W. cbn in W.
+    match goal with |- seen_down ?w _ _ = true => change w with (o_wnode o) end.
     rewrite W, seen_down_model.
     apply (lapse_handled s held k n Rpre Ho Nk (Rwatch k eq_refl Nk) C2).
   - (* ALapseFail *) pose proof (gen_step_env o s held (ALapseFail n) R I) as G. unfold slot_for in *.
     split; [|exact G]. unfold ok_check, ok_takes. cbn. destruct (o_active o); reflexivity.
+  - (* ALapseHb *) pose proof (gen_step_env o s held (ALapseHb n) R I) as G. unfold slot_for in *.
+    split; [|exact G]. cbn [held_after act_events] in *.
+    unfold ok_check. cbn [act seen lapse_of].
+    match goal with |- context [if ?c then _ else _] => destruct c eqn:C end; [|reflexivity].
+    apply andb_true_iff in C. destruct C as [C1 C2]. cbn in C1. unfold lock_running in C1.
+    rewrite Rac in C1. destruct (holder s) as [k|] eqn:Ho; [|discriminate].
+    apply negb_true_iff in C1. rewrite Rh in C1. rewrite Ra in C2.
+    assert (Nk : ~ In k held) by (intro X; apply memn_In in X; congruence).
+    pose proof (r_wnode _ _ _ G) as W. cbn in W.
+    match goal with |- seen_down ?w _ _ = true => change w with (o_wnode o) end.
+    rewrite W, seen_down_model.
+    apply (lapsehb_handled s held k n Rpre Ho Nk (Rwatch k eq_refl Nk) C2).
   - (* ACreate *) pose proof (gen_step_env o s held (ACreate n) R I) as G. unfold slot_for in *.
     split; [|exact G]. unfold ok_check, ok_takes. cbn. destruct (o_active o); reflexivity.
   - (* AReport *) pose proof (gen_step_env o s held (AReport w r h) R I) as G. unfold slot_for in *.
